@@ -115,25 +115,28 @@ def run(tier, seed):
     if "EmitOnlyWriter" in st and not st["EmitOnlyWriter"].get("ok"):
         res["broken"].append({"what": "debug.c stores through a char pointer outside emit_c", "detail": st["EmitOnlyWriter"]["errors"]})
     # (a) transparency under concurrency: lockers + debug caller under the deterministic scheduler
-    exe, err = vrt_runner.build("mu_mix")
     na = 0
     agg = {}
-    if exe is None:
-        res["broken"].append({"what": "harness build failed", "detail": err})
-    else:
-        nseeds = 1500 if tier == "quick" else 20000
+    for scen in ("mu_mix", "cv_mix"):
+        exe, err = vrt_runner.build(scen)
+        if exe is None:
+            res["broken"].append({"what": "harness build failed (%s)" % scen, "detail": err})
+            continue
+        nseeds = 1200 if tier == "quick" else 20000
         rs = vrt_runner.run_many(exe, range(seed * 100000 + 1, seed * 100000 + 1 + nseeds), {"VRT_DEBUGGER": 1, "VRT_RACE": 0})
-        agg, fails = vrt_runner.summarize(rs)
-        na = len(rs)
+        a2, fails = vrt_runner.summarize(rs)
+        for k, v in a2.items():
+            agg[k] = agg.get(k, 0) + v
+        na += len(rs)
         seen = set()
         for f in fails:
             k = f["prop"]
             if k in seen:
                 continue
             seen.add(k)
-            res["violations"].append({"scenario": "mu_mix", "env": {"VRT_DEBUGGER": 1, "VRT_RACE": 0}, "seed": f["seed"],
+            res["violations"].append({"scenario": scen, "env": {"VRT_DEBUGGER": 1, "VRT_RACE": 0}, "seed": f["seed"],
                                       "oracle": f["prop"], "why": f["msg"], "trace_tail": f.get("tail", []),
-                                      "key": "mu-debug-store" if f["prop"] in ("C16", "STUCK", "C01") else f["prop"]})
+                                      "key": "%s-debug-store" % scen if f["prop"] in ("C16", "STUCK", "C01", "BUDGET") else f["prop"]})
     res["coverage"] = {"evaluations": nb + na, "distinct_nontrivial": len(set((c[0], bytes(c[1])) for c in cases if c[0] > 0 and len(c[1]) + 1 > c[0])) + agg.get("debug_call", 0),
                        "rule": "(b) every n in 0..80 plus {127,128,200,511,1024,4000,-1,-100} x 4 functions x mutex/cv states with 0..3 queued "
                                "waiters on the real library, canaries on both sides; non-trivial = truncated outputs (n>0). "
